@@ -120,15 +120,49 @@ Proof.
 Qed.
 Print Assumptions no_crosstalk_asis_partial.
 
-(* MUTUAL.  Bob (any state B1) handles an invitation of Alice (any state A1) and emits a request; Alice receives
+(* MUTUAL, full statement: whenever Bob handles an invitation of Alice and both run the protocol, Bob's completed record
+   names Alice's identifier for this connection.  REFUTED for DID Exchange on the faithful model (and on the real
+   frameworks, findings/C10.json `forged-dx-response`, corpus/C10/forged-dx-response.json): the requester does not
+   authenticate the response by the invitation key (did_doc~attach is neither signed by this build's responder nor
+   verified by the requester), and the thread id is the invitation's @id, so a response made by anybody who saw the
+   invitation, arriving before Alice's, is accepted: Bob completes with the impostor's identifier and document while
+   Alice runs the thread under hers; her genuine response is then refused. *)
+Theorem mutual_refuted_forged_response :
+  let docB := Doc 7 [8] 9 10 in let myA := Doc 14 [15] 11 16 in let docM := Doc 41 [20] 21 42 in
+  let A1 := final Fixed agent0 [ICreateInv 2 3] in
+  let B2 := fst (step Fixed agent0 (IAcceptInv DX 2 3 11 12 6 docB)) in
+  let A2 := fst (step Fixed A1 (IRecv (MRequest DX 6 6 2 7 (Some docB)) 17 myA)) in
+  (* the forged response overtakes the genuine one *)
+  let B3 := fst (step Fixed B2 (IRecv (MResponse DX 6 6 41 (Some docM) 0) 0 (Doc 0 [] 0 0))) in
+  snd (step Fixed A1 (IRecv (MRequest DX 6 6 2 7 (Some docB)) 17 myA)) = [OSend 9 [8] (MResponse DX 6 6 14 (Some myA) 3)] /\
+  record B3 12 = Some (Conn My 6 SCompleted 7 41 3) /\ resolve B3 41 = Some docM /\
+  record A2 17 = Some (Conn Their 6 SResponded 14 7 0) /\
+  snd (step Fixed B3 (IRecv (MResponse DX 6 6 14 (Some myA) 3) 0 (Doc 0 [] 0 0))) = [OReject].
+Proof. vm_compute. repeat split. Qed.
+Print Assumptions mutual_refuted_forged_response.
+
+(* The legacy Connection protocol is not open to this: a response the invitee accepts verifies under the invitation key
+   (both variants of the code; the forged responses of the generators are refused on the real frameworks). *)
+Theorem legacy_response_accepted_is_signed_by_invitation_key :
+  forall v B t dt d dco sg x y c r e ks m,
+  tget (a_thmap B) My dt = Some c -> record B c = Some r ->
+  snd (step v B (IRecv (MResponse LC t dt d dco sg) x y)) = [OSend e ks m] ->
+  sg = c_rk r /\ sg <> 0.
+Proof. exact lc_response_signed. Qed.
+Print Assumptions legacy_response_accepted_is_signed_by_invitation_key.
+
+(* MUTUAL, partial: under the guard that, while the exchange is under way, no input addressed to the exchange's own
+   thread reaches either side from elsewhere (midA/midB are foreign to the thread: excludes exactly the forged response /
+   a second request on the thread; for the legacy protocol the signature makes the guard unnecessary for responses).
+   Bob (any state B1) handles an invitation of Alice (any state A1) and emits a request; Alice receives
    that request and emits a response; Bob receives that response and emits the complete; Alice receives it.
    Between these steps and after them each side processes ARBITRARY other inputs (midA/midB: other threads;
    postA/postB: other threads — on the exchange's own thread a completed record admits nothing, see
-   completed_is_terminal).  Then both records are completed on the same thread, each one's own identifier is the
-   other's peer identifier, each side resolves the peer identifier to exactly the document the other side
-   created for this connection (keys and endpoint), and the response / complete were posted to the endpoint and
-   keys of those documents. *)
-Theorem mutual : forall p t i k eA cA cB docB myA A1 B1 midA postA midB postB req resp cmpl e1 k1 e2 k2 e3 k3 xa ya xb yb,
+   completed_is_terminal; rotations of the two identifiers signed by their owners excepted).  Then both records are
+   completed on the same thread, each one's own identifier is the other's peer identifier, each side resolves the
+   peer identifier to exactly the document the other side created for this connection (keys and endpoint), and the
+   response / complete were posted to the endpoint and keys of those documents. *)
+Theorem mutual_partial : forall p t i k eA cA cB docB myA A1 B1 midA postA midB postB req resp cmpl e1 k1 e2 k2 e3 k3 xa ya xb yb,
   unused A1 cA -> unused B1 cB ->
   Forall (foreign Their t cA) midA -> Forall (foreign Their t cA) postA ->
   Forall (foreign My t cB) midB -> Forall (foreign My t cB) postB ->
@@ -158,15 +192,15 @@ Proof.
   exists (Conn Their t SCompleted (d_id myA) (d_id docB) rk), (Conn My t SCompleted (d_id docB) (d_id myA) k).
   cbn [c_state c_th c_my c_their]. repeat split; assumption.
 Qed.
-Print Assumptions mutual.
+Print Assumptions mutual_partial.
 
-(* ATTRIBUTED.  After such an exchange, a message packed by Bob with a key of his document for a key of Alice's
+(* ATTRIBUTED, partial (same guard as mutual_partial).  After such an exchange, a message packed by Bob with a key of his document for a key of Alice's
    document is handed to Alice's handler with (my, their) = the two identifiers of that same connection record,
    and the other way round — whatever else (postA/postB: ANY foreign-thread inputs, e.g. everything a third
    party sends afterwards) the two agents processed meanwhile.  Guard on the time of the exchange itself: when the
    complete arrives, nobody else has yet claimed Bob's keys at Alice (the other exchanges running at the same
    time use keys of their own). *)
-Theorem attributed : forall p t i k eA cA cB docB myA A1 B1 midA postA midB postB req resp cmpl e1 k1 e2 k2 e3 k3 xa ya xb yb,
+Theorem attributed_partial : forall p t i k eA cA cB docB myA A1 B1 midA postA midB postB req resp cmpl e1 k1 e2 k2 e3 k3 xa ya xb yb,
   unused A1 cA -> unused B1 cB ->
   Forall (foreign Their t cA) midA -> Forall (foreign Their t cA) postA ->
   Forall (foreign My t cB) midB -> Forall (foreign My t cB) postB ->
@@ -196,7 +230,7 @@ Proof.
   - rewrite (KA1 _ Ha), (KA2 FRESH _ Hb). reflexivity.
   - rewrite (KB1 _ Hb), (KB2 _ Ha). reflexivity.
 Qed.
-Print Assumptions attributed.
+Print Assumptions attributed_partial.
 
 (* The state machine the model consults (`can`) is the relation C09's translator regenerates from the code of both
    services (coq/gen/Gen_C09.v: didex_edges / legacy_edges over null, invited, requested, responded, completed[,
